@@ -11,7 +11,10 @@ G  TLC enumerates the document grammar (Gen_Unparse, depth 3 / 4) and prints eac
    each text the harness runs the REAL chain parse -> node_to_wikitext -> parse ->
    node_to_wikitext -> parse, dumps the three trees and two texts structurally (ptree2),
    and TLC (Trace_Unparse) decides Equiv(t2, t1), Equiv(t3, t2); the real text against
-   TLC's Unparse of the abstract tree is DRIFT only.
+   TLC's Unparse of the abstract tree is DRIFT only.  Family D7 (block adjacency) carries the
+   tree TLC's block reader (Gen_Unparse.ReadEls) gives; Gen_Unparse.Seams runs the reader on the
+   emitted text inside the model (ideal emitter round-trips; the what-if that drops the blank
+   between two lists merges / re-nests them).
 V  every sub-tree, string and child list of the first trees is also handed directly to
    node_to_wikitext (the API accepts nodes, strings and lists); TLC decides which of them
    are self-contained wikitext and whether parse(to_wikitext(x)) is equivalent to x.
